@@ -21,7 +21,7 @@ RULE = ("files from the SpikeGLX writer model: {3A,3B1,3B2,NP2.1,NP2.4,NPultra,n
 ASSUMPTIONS = ["pairs of two index arrays are not generated (NumPy pairs them pointwise, the reader gathers orthogonally; the property "
                "names neither)", "values agree to float32 rounding of 'float32(raw) x factor': |got-exp| <= 2^-22 |exp|; sync exact",
                "mtscomp (dependency) is observed only through the reader"]
-REQUIRED = {"getitem_calls": 300, "read_calls": 50, "values_compared": 300, "geometry_rows_checked": 20, "cbin_files": 3, "negstep_slices": 10}
+REQUIRED = {"getitem_calls": 300, "read_calls": 50, "values_compared": 300, "geometry_rows_checked": 20, "cbin_files": 3, "negstep_slices": 10, "lf_band_files": 10}
 CASE_TIMEOUT = 60.0
 RTOL = 2.0 ** -22
 
@@ -90,8 +90,12 @@ def run_case(case):
         enc = "shank" if kind == "NPultra" else str(rng.choice(["shank", "geom"]))
         gains = G.random_gains(rng, "random" if rng.random() < 0.85 else "uniform")
         aimax, maxint = ((0.5, 8192), (0.62, 2048), (0.62, 8192), (0.6, 512))[int(rng.integers(0, 4))] if kind.startswith("NP2") else (0.6, 512)
-        rec = G.make(rng, kind=kind, sites=G.draw_sites(rng, kind, n, mode), encoding=enc, gains=gains, ns=ns, aimax=aimax, maxint=maxint,
-                     fs=float(rng.choice([30000.0, 30000.390639481])), nsync=int(rng.choice([1, 1, 1, 1, 0])))
+        stream = "lf" if rng.random() < 0.3 else "ap"          # the LF band of the same probes: its own gain column, the same sync word
+        rec = G.make(rng, kind=kind, stream=stream, sites=G.draw_sites(rng, kind, n, mode), encoding=enc, gains=gains, ns=ns, aimax=aimax, maxint=maxint,
+                     fs=float(rng.choice([30000.0, 30000.390639481])) if stream == "ap" else float(rng.choice([2500.0, 2500.0325])),
+                     nsync=int(rng.choice([1, 1, 1, 1, 0])))
+        if stream == "lf":
+            res.count("lf_band_files")
         n = rec.n
         order = np.r_[rec.order if sort else np.arange(n), np.arange(n, rec.nc)]
         nontrivial = (not np.array_equal(order, np.arange(rec.nc))) and len(np.unique(rec.s2v[:n])) > 1
@@ -100,7 +104,7 @@ def run_case(case):
     cal = rec.raw[:, order].astype(np.float64) * rec.s2v[order][None, :]
     syncmask = np.zeros(rec.nc, bool)
     syncmask[rec.nc - rec.nsync:] = True     # sync columns stay last under both orders
-    label0 = f"{kind}/{enc}/{mode}/n={n}/sort={sort}/{'cbin' if cbin else 'bin'}"
+    label0 = f"{kind}/{getattr(rec, 'stream', 'nidq')}/{enc}/{mode}/n={n}/sort={sort}/{'cbin' if cbin else 'bin'}"
     seams = None
     try:
         sr = spikeglx.Reader(b, sort=sort)
